@@ -106,6 +106,9 @@ type TxIn struct {
 	Commission uint16 `json:"commission,omitempty"`
 	Risk       uint16 `json:"risk,omitempty"`
 	Name       int    `json:"name,omitempty"`
+	// > 0: the gas limit is min(head gas limit, gas limit of the block under
+	// construction) - GasBelow + 1, i.e. 1 = the largest gas limit the pool admits
+	GasBelow uint64 `json:"gas_below,omitempty"`
 }
 
 // EvIn is one evidence reaching the builder before it seals the block.
@@ -150,6 +153,9 @@ type History struct {
 	// number of blocks node D imports the ordinary way before the rest arrives as a fork
 	SideFrom int `json:"side_from,omitempty"`
 	Fork     *ForkIn `json:"fork,omitempty"`
+	// gas limit of the genesis block (0 = 60 000 000); small values make blocks that
+	// are full in gas-limit reservations cheap
+	GasLimit uint64 `json:"gas_limit,omitempty"`
 }
 
 // ---- observations -----------------------------------------------------------
@@ -236,6 +242,10 @@ type BlockObs struct {
 	SideErr        string     `json:"-"` // error of the real side-chain import path (node D), reported on the first block
 	SideSkipped    bool       `json:"-"`
 	Fork           *ForkObs   `json:"-"`
+	BlockGasLimit  uint64     `json:"-"`
+	GasSteps       []GasStep  `json:"-"` // the candidates in the order the worker tried them
+	FinalPool      uint64     `json:"-"`
+	HasPool        bool       `json:"-"`
 	SideEErr       string     `json:"-"`
 	SideEMode      string     `json:"-"`
 	SideLen        int        `json:"-"`
@@ -343,6 +353,7 @@ type World struct {
 	ids      map[common.Address]int64
 	A, B, C, D, E *Node
 	forking       bool
+	curGasLimit   uint64
 	extra         []*Node
 	be       *backend
 	worker   *miner.VerifWorkerC06
@@ -385,10 +396,66 @@ func bigS(s string) *big.Int {
 
 type critPanic string
 
+// GasStep: one candidate the worker tried (from its own log records).
+type GasStep struct {
+	Limit uint64
+	Kind  int // 0 applied, 1 nonce, 2 no money for the gas, 3 refused by the pool, 4 intrinsic gas, 5 value transfer impossible, 9 other
+	Used  uint64
+	Err   string
+}
+
+type buildEvent struct {
+	tx       string
+	ok       bool
+	gas      uint64
+	err      error
+	refunded bool
+}
+
+var (
+	capture        *[]buildEvent
+	lastRefundUsed uint64
+	haveRefundUsed bool
+)
+
+func ctxVal(ctx []interface{}, key string) interface{} {
+	for i := 0; i+1 < len(ctx); i += 2 {
+		if k, ok := ctx[i].(string); ok && k == key {
+			return ctx[i+1]
+		}
+	}
+	return nil
+}
+
 func quietLogs() {
 	logging.Root().SetHandler(logging.FuncHandler(func(r *logging.Record) error {
 		if r.Lvl == logging.LvlCrit {
 			panic(critPanic("CRIT: " + r.Msg))
+		}
+		if capture != nil {
+			switch r.Msg {
+			case "refundGas": // MessageContext.refundGas: gas used net of the refund counter = what the pool loses
+				if g, ok := ctxVal(r.Ctx, "gasUsed").(uint64); ok {
+					lastRefundUsed, haveRefundUsed = g, true
+				}
+			case "apply transaction Finalise": // StateProcessor.ApplyTransaction succeeded
+				tx, _ := ctxVal(r.Ctx, "tx").(string)
+				gas, _ := ctxVal(r.Ctx, "gas").(uint64)
+				if haveRefundUsed {
+					gas = lastRefundUsed
+				}
+				haveRefundUsed = false
+				*capture = append(*capture, buildEvent{tx: tx, ok: true, gas: gas})
+			case "commitTransaction: apply transition failed": // worker.commitTransaction
+				tx, _ := ctxVal(r.Ctx, "tx").(string)
+				err, _ := ctxVal(r.Ctx, "err").(error)
+				ev := buildEvent{tx: tx, err: err}
+				if haveRefundUsed { // the failure came after refundGas
+					ev.gas, ev.refunded = lastRefundUsed, true
+				}
+				haveRefundUsed = false
+				*capture = append(*capture, ev)
+			}
 		}
 		return nil
 	}))
@@ -515,6 +582,13 @@ func emptyHeaderFields(h *types.Header) {
 	h.Signature, h.Validator, h.Certificate = []byte{}, []byte{}, []byte{}
 }
 
+func (w *World) genesisGasLimit() uint64 {
+	if w.h.GasLimit > 0 {
+		return w.h.GasLimit
+	}
+	return 60000000
+}
+
 func (w *World) writeGenesis(db youdb.Database) *types.Block {
 	h := w.h
 	sdb := state.NewDatabase(db)
@@ -551,7 +625,7 @@ func (w *World) writeGenesis(db youdb.Database) *types.Block {
 	}
 	st.AddBalance(w.pool, bigS(h.Pool))
 	root, valRoot, stakingRoot := st.IntermediateRoot(true)
-	hdr := &types.Header{Number: big.NewInt(0), Root: root, ValRoot: valRoot, StakingRoot: stakingRoot, GasLimit: 60000000,
+	hdr := &types.Header{Number: big.NewInt(0), Root: root, ValRoot: valRoot, StakingRoot: stakingRoot, GasLimit: w.genesisGasLimit(),
 		GasRewards: big.NewInt(0), Subsidy: big.NewInt(0), CurrVersion: params.YouV5, Time: genesisTime}
 	emptyHeaderFields(hdr)
 	if _, _, _, err := st.Commit(true); err != nil {
@@ -661,6 +735,9 @@ func (w *World) buildTx(nonceOf func(common.Address) uint64, t *TxIn) *types.Tra
 	}
 	from := w.addrs[t.From]
 	nonce := uint64(int64(nonceOf(from)) + int64(t.NonceDelta))
+	if t.GasBelow > 0 && w.curGasLimit >= t.GasBelow {
+		t.Gas = w.curGasLimit - t.GasBelow + 1
+	}
 	price := new(big.Int).SetUint64(t.Price)
 	var tx *types.Transaction
 	stakingTx := func(action staking.ActionType, payload interface{}) *types.Transaction {
@@ -879,8 +956,18 @@ func (w *World) buildBlock(b *BlockIn) (blk *types.Block, o *BlockObs) {
 	defer pool.Stop()
 	w.be.pool = pool
 	o.Submitted = len(b.Txs)
+	// the transaction pool admits gas limits up to the HEAD's gas limit; steered gas
+	// limits are counted down from the smaller of that and the new block's limit
+	o.BlockGasLimit = core.CalcGasLimit(parent)
+	w.curGasLimit = o.BlockGasLimit
+	if parent.GasLimit() < w.curGasLimit {
+		w.curGasLimit = parent.GasLimit()
+	}
+	submitted := map[string]*types.Transaction{}
 	for i := range b.Txs {
-		tx := w.buildTx(pool.Nonce, &b.Txs[i])
+		ti := b.Txs[i]
+		tx := w.buildTx(pool.Nonce, &ti)
+		submitted[tx.Hash().String()] = tx
 		errs := pool.AddRemotesSync([]*types.Transaction{tx})
 		if errs[0] != nil {
 			o.PoolErrs = append(o.PoolErrs, errs[0].Error())
@@ -890,7 +977,44 @@ func (w *World) buildBlock(b *BlockIn) (blk *types.Block, o *BlockObs) {
 	if !w.h.Plain {
 		pend = staking.VerifPendingEvidencesC06(w.A.stk)
 	}
+	var events []buildEvent
+	capture, haveRefundUsed = &events, false
 	blk = w.worker.Build()
+	capture = nil
+	o.FinalPool, o.HasPool = w.worker.LastGasPool()
+	proc, _ := w.A.bc.Processor().(*core.StateProcessor)
+	for _, e := range events {
+		tx := submitted[e.tx]
+		if tx == nil || proc == nil {
+			o.HasPool = false // an event that cannot be matched: no gas case for this block
+			break
+		}
+		st := GasStep{Limit: tx.Gas(), Used: e.gas}
+		if !e.ok {
+			igas, _ := proc.GetConverter(tx.To()).IntrinsicGas(tx.Data(), tx.To())
+			switch {
+			case e.err == core.ErrNonceTooLow || e.err == core.ErrNonceTooHigh:
+				st.Kind = 1
+			case e.err != nil && e.err.Error() == "insufficient balance to pay for gas":
+				st.Kind = 2
+			case e.err == core.ErrGasLimitReached:
+				st.Kind = 3
+			case e.err == vm.ErrOutOfGas:
+				st.Kind = 4
+			case e.err == vm.ErrInsufficientBalance:
+				st.Kind, st.Used = 5, igas
+				if e.refunded {
+					st.Used = e.gas
+				}
+			default:
+				st.Kind = 9
+			}
+			if e.err != nil {
+				st.Err = e.err.Error()
+			}
+		}
+		o.GasSteps = append(o.GasSteps, st)
+	}
 	if blk == nil {
 		o.Crash = "worker produced no task"
 		return nil, o
